@@ -99,6 +99,26 @@ unit(name="SrcPosTypes", props="property C03", file=SA_FILE, dialect="gensa", st
                                  "is_l_pos": dict(lean="is_l_pos", self_args=["self.pos_types"], args=["usize"], ret="bool")},
                      theorem="RbV.Thm.GenSrcPosTypes.is_lms_pos_eq_model")])
 
+# `Sais::init_bucket_start`, `init_bucket_end`.  `VecMap<usize>` = `Rs.VecMap` (association list; `values()` in ascending
+# key order, `*get_mut(k).unwrap() += d` = `Rs.VecMap.addAt`: RsSemGensa.lean); `cast::<T, usize>` = abstract `castU`
+SA_FIELDS = {"pos": "Vec<usize>", "lms_pos": "Vec<usize>", "reduced_text_pos": "Vec<usize>", "bucket_sizes": "VecMap<usize>",
+             "bucket_start": "Vec<usize>", "bucket_end": "Vec<usize>"}
+SA_CASTU = {"cast": dict(lean="castU", args=["T"], ret="Option<usize>")}
+
+unit(name="SrcSaisBuckets", props="property C03", file=SA_FILE, dialect="gensa",
+     functions=[dict(name="Sais::init_bucket_start", lean="init_bucket_start",
+                     header="fn init_bucket_start<T: Integer + Unsigned + NumCast + Copy>(&mut self, text: &[T])",
+                     aliases={"T": "u64"}, abstract_fns=SA_CASTU,
+                     self_fields=[("bucket_sizes", SA_FIELDS["bucket_sizes"]), ("bucket_start", SA_FIELDS["bucket_start"])],
+                     params=[("text", "&[T]")], ret=None, locals={"sum": "usize"},
+                     theorem="RbV.Thm.GenSrcSaisBuckets.init_bucket_start_spec"),
+                dict(name="Sais::init_bucket_end", lean="init_bucket_end",
+                     header="fn init_bucket_end<T: Integer + Unsigned + NumCast + Copy>(&mut self, text: &[T])",
+                     aliases={"T": "u64"},
+                     self_fields=[("bucket_start", SA_FIELDS["bucket_start"]), ("bucket_end", SA_FIELDS["bucket_end"])],
+                     params=[("text", "&[T]")], ret=None,
+                     theorem="RbV.Thm.GenSrcSaisBuckets.init_bucket_end_spec")])
+
 _SA = {}
 
 
@@ -158,6 +178,84 @@ def _sa_classes():
                     self.err("`Vec::with_capacity(%r)`" % (nt,), e)
                 return "([] : %s)" % expected.lean(), expected
             return BaseF.call(self, e, code, expected)
+
+        # ------------------------------------------------------------ `VecMap<usize>` (bucket sizes)
+        def is_vecmap(self, e):
+            t = self.peek_type(e)
+            return isinstance(t, cf.TOpaque) and t.name == "VecMap"
+
+        def get_mut_target(self, lhs):
+            """(receiver, key) when `lhs` is `*(m.get_mut(k).unwrap())` on a `VecMap` held in a variable or field"""
+            x = cf.strip(lhs)                       # (`strip` removes parentheses, `*` and `&`)
+            if x.kind == "mcall" and x.name == "unwrap" and not x.args:
+                y = cf.strip(x.recv)
+                if y.kind == "mcall" and y.name == "get_mut" and len(y.args) == 1:
+                    return y.recv, y.args[0]
+            return None
+
+        def _lhs_root(self, e):
+            tgt = self.get_mut_target(e)
+            if tgt is not None:
+                return BaseF._lhs_root(self, tgt[0])
+            return BaseF._lhs_root(self, e)
+
+        def _assigned(self, n, decl, out):
+            if n.kind == "assign" and self.get_mut_target(n.lhs) is not None:
+                r = self._lhs_root(n.lhs)
+                if r not in decl and r not in out:
+                    out.append(r)
+                self._mut_expr(n.rhs, decl, out)
+                return
+            return BaseF._assigned(self, n, decl, out)
+
+        def assign(self, s, code):
+            tgt = self.get_mut_target(s.lhs)
+            if tgt is not None and self.is_vecmap(tgt[0]):
+                recv, key = tgt
+                v = self.container(recv, s)
+                if v is None or s.op != "+":
+                    self.err("`*m.get_mut(k).unwrap()` is only translated in `… += e` on a map held in a variable or field", s)
+                k, kt = self.expr(key, code, cb.TInt("usize"))
+                d, dt = self.expr(s.rhs, code, cb.TInt("usize"))
+                if kt != cb.TInt("usize") or dt != cb.TInt("usize"):
+                    self.err("`*m.get_mut(%r).unwrap() += %r`" % (kt, dt), s)
+                code.bind(v.lean, ("call", "Rs.VecMap.addAt 64 %s %s %s" % (atom_(v.lean), atom_(k), atom_(d))))
+                return
+            return BaseF.assign(self, s, code)
+
+        def opaque_call(self, e, code):
+            if self.is_vecmap(e.recv) and e.name in ("clear", "contains_key", "insert", "values"):
+                v = self.container(e.recv, e)
+                r, t = self.expr(e.recv, code)
+                if e.name == "clear" and not e.args:
+                    if v is None:
+                        self.err("`.clear()` on a map that is not held in a variable or field", e)
+                    code.let(v.lean, "Rs.VecMap.empty")
+                    return "()", cb.TUnit()
+                if e.name == "contains_key" and len(e.args) == 1:
+                    k, kt = self.expr(e.args[0], code, cb.TInt("usize"))
+                    if kt != cb.TInt("usize"):
+                        self.err("`.contains_key(%r)`" % (kt,), e)
+                    return "Rs.VecMap.containsKey %s %s" % (atom_(r), atom_(k)), cb.TBool()
+                if e.name == "insert" and len(e.args) == 2:
+                    if v is None:
+                        self.err("`.insert` on a map that is not held in a variable or field", e)
+                    k, kt = self.expr(e.args[0], code, cb.TInt("usize"))
+                    x, xt = self.expr(e.args[1], code, cb.TInt("usize"))
+                    if kt != cb.TInt("usize") or not isinstance(xt, cb.TInt) or xt.signed:
+                        self.err("`.insert(%r, %r)`" % (kt, xt), e)
+                    code.let(v.lean, "Rs.VecMap.insert %s %s %s" % (atom_(r), atom_(k), atom_(x)))
+                    return "()", cb.TUnit()
+                if e.name == "values" and not e.args:
+                    return "Rs.VecMap.values %s" % atom_(r), cb.TSeq(cb.TInt("usize"))
+            return BaseF.opaque_call(self, e, code)
+
+        def loop_source(self, it, code, s):
+            x = cf.strip(it)
+            if x.kind == "mcall" and x.name == "values" and not x.args and self.is_vecmap(x.recv):
+                l, t = self.opaque_call(x, code)
+                return l, t.elem, None
+            return BaseF.loop_source(self, it, code, s)
 
         def captured(self, node, state_names, local_names):
             """the parameters of a loop helper in *declaration* order (fields, parameters, then `let`s, outer scopes first)
